@@ -91,6 +91,13 @@ func VerifC03Crash() {
 		first, _ := st.FirstIndex()
 		last, _ := st.LastIndex()
 		n.idx = last
+		if kind == "RestartNode" {
+			// etcd/raft's loadState: a stored commit index outside the stored log is a
+			// panic - the member can never be started again
+			if hs, _, err := st.InitialState(); err == nil && !etcdRaft.IsEmptyHardState(hs) {
+				verifrt.Assert(hs.Commit <= last && hs.Commit+1 >= first, "stored-commit-index-lies-within-the-stored-log")
+			}
+		}
 		if last >= first {
 			if ents, err := st.Entries(first, last+1, math.MaxUint64); err == nil && len(ents) > 0 {
 				n.readyc <- etcdRaft.Ready{CommittedEntries: ents}
